@@ -11,6 +11,7 @@ import (
 	"flag"
 	"fmt"
 	"os"
+	"path/filepath"
 	"sort"
 	"strings"
 	"sync"
@@ -358,6 +359,7 @@ func main() {
 	malformed := flag.Int("malformed", 8, "percent of malformed commands")
 	conns := flag.Int("conns", 0, "connections (0: family default)")
 	nkeys := flag.Int("keys", 0, "number of key names the generator uses (0: all six)")
+	corpus := flag.String("corpus", "", "directory of past minimized failures (<dir>/<family>/*.json): they run first")
 	flag.Parse()
 	gen.Hash = redisemu.VerifSipHash
 
@@ -397,6 +399,53 @@ func main() {
 	total := newStats()
 	var mu sync.Mutex
 	var failures []*Failure
+	// the corpus: minimized op sequences on which some earlier version of the code disagreed with the
+	// model; they run before anything is generated
+	corpusRun := 0
+	if *corpus != "" {
+		files, _ := filepath.Glob(filepath.Join(*corpus, *fam, "*.json"))
+		sort.Strings(files)
+		if len(files) > 0 {
+			d, err := drv.Start()
+			if err != nil {
+				panic(err)
+			}
+			r := &runner{d: d, quirks: *quirks, dumpGap: 1}
+			for _, path := range files {
+				data, err := os.ReadFile(path)
+				if err != nil {
+					continue
+				}
+				var cf Failure
+				if json.Unmarshal(data, &cf) != nil || len(cf.Ops) == 0 {
+					fmt.Println("corpus: unreadable", path)
+					os.Exit(2)
+				}
+				nc := 1
+				for _, o := range cf.Ops {
+					if o.Conn > nc {
+						nc = o.Conn
+					}
+				}
+				st := newStats()
+				st.Sequences = 1
+				res, _ := r.run(cf.Ops, nc, st, nil, nil)
+				total.merge(st)
+				corpusRun++
+				if res != nil {
+					res.Property, res.Family, res.Seed, res.Quirks = *prop, *fam, *seed, *quirks
+					res.Ops, res.Shrunk = cf.Ops, true
+					for _, o := range res.Ops {
+						res.Readable = append(res.Readable, readable(o))
+					}
+					res.Detail += " (corpus " + filepath.Base(path) + ")"
+					failures = append(failures, res)
+					break
+				}
+			}
+			d.Close()
+		}
+	}
 	var wg sync.WaitGroup
 	jobs := make(chan int, *seqs)
 	for i := 0; i < *seqs; i++ {
@@ -481,7 +530,7 @@ func main() {
 	total.Distinct = len(total.distinctSeen)
 	result := map[string]any{
 		"family": *fam, "seed": *seed, "wall_s": time.Since(start).Seconds(), "stats": total,
-		"failures": len(failures),
+		"failures": len(failures), "corpus_sequences": corpusRun,
 	}
 	var replayPaths []string
 	for i, f := range failures {
@@ -505,8 +554,8 @@ func main() {
 		names = append(names, fmt.Sprintf("%s=%d", k, total.Outcomes[k]))
 	}
 	sort.Strings(names)
-	fmt.Printf("corr family=%s steps=%d seqs=%d distinct=%d outcomes[%s] quirks=%v wall=%.1fs\n",
-		*fam, total.Steps, total.Sequences, total.Distinct, strings.Join(names, " "), total.Quirks, time.Since(start).Seconds())
+	fmt.Printf("corr family=%s steps=%d seqs=%d (corpus %d) distinct=%d outcomes[%s] quirks=%v wall=%.1fs\n",
+		*fam, total.Steps, total.Sequences, corpusRun, total.Distinct, strings.Join(names, " "), total.Quirks, time.Since(start).Seconds())
 	if len(failures) > 0 {
 		os.Exit(1)
 	}
